@@ -7,9 +7,9 @@ namespace c10 {
 using namespace Fastor;
 using vla::ld;
 
-// Calibration (seeds 1..5, unchanged tree, bound constant 1): largest observed residual / (n eps kappa_eff) was 0.47
-// -> fixed at about 16x.
-static const double C_BOUND = 64.0;
+// Calibration (quick tier, seeds 1..5, unchanged tree): largest observed max(||A X - I||, ||X A - I||)_inf / (n eps kappa_eff) was
+// 0.79, 1.74, 0.77, 0.75, 0.90 -> fixed at 16x the largest = 28.
+static const double C_BOUND = 28.0;
 static const double G_LIMIT = 64.0;                                   // judged class: growth allowance g <= 64
 template <class T> inline ld kappa_limit() { return sizeof(T) == 4 ? 1e4L : 1e7L; }      // prescribed 1e3 / 1e6 (2-norm) + inf-norm slack
 
@@ -35,7 +35,7 @@ bool judge_inverse(vf::Ctx &ctx, const char *what, const std::vector<ld> &Aw, co
   std::vector<ld> Xw = vla::widen(x, n * n);
   ld r, l; vla::inverse_residuals(Aw, Xw, n, r, l);
   ld bound = (ld)C_BOUND * (ld)n * vfo::traits<T>::eps() * keff;
-  ctx.see_ratio((double)(std::max(r, l) / bound));
+  if (r <= bound && l <= bound) ctx.see_ratio((double)(std::max(r, l) / bound));      // worst ratio among comparisons that passed
   if (r > bound) { ctx.fail("%s%s: ||A*X - I||_inf = %.4Lg exceeds %.3g*n*eps*kappa_eff = %.4Lg (n=%zu kappa=%.4Lg kappa_eff=%.4Lg)", what, where, r, C_BOUND, bound, n, cond.kappa, keff); return false; }
   if (l > bound) { ctx.fail("%s%s: ||X*A - I||_inf = %.4Lg exceeds %.3g*n*eps*kappa_eff = %.4Lg (n=%zu kappa=%.4Lg kappa_eff=%.4Lg)", what, where, l, C_BOUND, bound, n, cond.kappa, keff); return false; }
   return true;
